@@ -17,11 +17,14 @@ import (
 
 // pair is one leader, one follower and the proxy between them.
 type pair struct {
-	L    *t38.Srv  // in-process
-	F    *t38.Proc // child process: resynchronisation code paths end in log.Fatalf (process exit)
-	px   *proxy
-	lc   *t38.Conn // leader command connection
-	fdir string
+	L     *t38.Srv // in-process
+	F     *fproc   // child process
+	fopts procOpts // how the follower process is started (every time)
+	LP    *fproc   // the leader as a child process (probes that need its log pipe); L then only carries Addr and Dir
+	olds  []func() // resources of leaders this case has moved away from: resynchronisation code paths end in log.Fatalf (process exit)
+	px    *proxy
+	lc    *t38.Conn // leader command connection
+	fdir  string
 
 	markerSeq int
 	nonceBase string
@@ -116,46 +119,17 @@ func startLeader() (*t38.Srv, error) {
 
 // startFollowerProc starts the follower child process on dir and waits for its
 // own "Ready to accept connections" line (or its exit).
-func startFollowerProc(dir string) (*t38.Proc, error) { return startFollowerProcDev(dir, false) }
+func startFollowerProc(dir string) (*fproc, error) { return startProc(procOpts{Dir: dir}) }
 
 // startFollowerProcDev optionally starts the child in dev mode (SLEEP command).
-func startFollowerProcDev(dir string, dev bool) (*t38.Proc, error) {
-	var last error
-	for try := 0; try < 6; try++ {
-		F, err := t38.StartProc(t38.Opts{Dir: dir, DevMode: dev})
-		if err != nil {
-			last = err
-			if strings.Contains(err.Error(), "address already in use") {
-				continue
-			}
-			return nil, err
-		}
-		// The line is logged as soon as the listener exists, before the log is
-		// loaded. A child that cannot bind neither logs it nor exits (Serve
-		// waits for its background routines first), so do not wait long.
-		deadline := time.Now().Add(6 * time.Second)
-		ok := false
-		for time.Now().Before(deadline) {
-			if strings.Contains(F.Stderr.String(), "Ready to accept connections at "+F.Addr) {
-				ok = true
-				break
-			}
-			if !F.Alive() {
-				break
-			}
-			time.Sleep(2 * time.Millisecond)
-		}
-		if ok && F.Alive() {
-			return F, nil
-		}
-		e := F.Stderr.String()
-		if len(e) > 400 {
-			e = e[len(e)-400:]
-		}
-		last = fmt.Errorf("follower process did not come up on %s: %s", F.Addr, e)
-		F.Kill()
-	}
-	return nil, last
+func startFollowerProcDev(dir string, dev bool) (*fproc, error) {
+	return startProc(procOpts{Dir: dir, Dev: dev})
+}
+
+func (p *pair) launchFollower() (*fproc, error) {
+	o := p.fopts
+	o.Dir = p.fdir
+	return startProc(o)
 }
 
 func startPair() (*pair, error) {
@@ -188,8 +162,15 @@ func (p *pair) close() {
 	if p.F != nil {
 		p.F.Kill()
 	}
-	p.L.Stop()
+	if p.LP != nil {
+		p.LP.Kill()
+	} else {
+		p.L.Stop()
+	}
 	os.RemoveAll(p.L.Dir)
+	for _, f := range p.olds {
+		f()
+	}
 	if p.fdir != "" {
 		os.RemoveAll(p.fdir)
 	}
@@ -231,6 +212,10 @@ func apply(c *t38.Conn, cmds [][]string) (nerr int, err error) {
 // the proxy.
 func (p *pair) startFollower(cs *caseSpec, out *outcome) error {
 	p.fdir = t38.NewDir("c06f")
+	p.fopts.NoAOF = cs.NoAOF
+	if cs.NoAOF {
+		out.label("follower:no-aof")
+	}
 	switch cs.Init {
 	case initPrefix, initLonger:
 		cmds, _, err := t38.ParseAOF(p.L.AOFPath())
@@ -280,7 +265,7 @@ func (p *pair) startFollower(cs *caseSpec, out *outcome) error {
 		}
 		out.label("init-log:" + sizeClass(cut))
 	}
-	F, err := startFollowerProc(p.fdir)
+	F, err := p.launchFollower()
 	if err != nil {
 		return err
 	}
@@ -310,6 +295,17 @@ func (p *pair) startFollower(cs *caseSpec, out *outcome) error {
 	if v.IsErr() {
 		return fmt.Errorf("FOLLOW refused: %s", v.Str)
 	}
+	if cs.NoAOF {
+		// A follower without a log counts no bytes: it reports caught up only if
+		// the leader's log is empty when it attaches. Let the handshake finish
+		// before the leader gets its first command.
+		for dl := time.Now().Add(20 * time.Second); time.Now().Before(dl) && p.F.Alive(); time.Sleep(time.Millisecond) {
+			if yes, _ := p.px.Reconnected(0); yes {
+				break
+			}
+		}
+		time.Sleep(20 * time.Millisecond)
+	}
 	return nil
 }
 
@@ -331,7 +327,7 @@ func sizeClass(n int64) string {
 // starts it again on the same directory.
 func (p *pair) restartFollower() error {
 	p.F.Kill()
-	F, err := startFollowerProc(p.fdir)
+	F, err := p.launchFollower()
 	if err != nil {
 		return err
 	}
@@ -374,6 +370,111 @@ func (p *pair) followerDied(phase string, out *outcome) bool {
 	return true
 }
 
+// shrinkNow runs AOFSHRINK on the leader to completion.
+func (p *pair) shrinkNow() error {
+	if p.shrinkIno == 0 {
+		if f, err := os.Open(p.L.AOFPath()); err == nil {
+			p.shrinkOld = f
+			p.shrinkIno = aofInode(p.L.AOFPath())
+		}
+	}
+	if v, err := p.lc.Do("AOFSHRINK"); err != nil || v.IsErr() {
+		return fmt.Errorf("AOFSHRINK: %v %s", err, v.String())
+	}
+	return p.waitShrink(30 * time.Second)
+}
+
+// switchLeader starts a second leader with its own history behind a paced
+// proxy and points the follower at it. While the follower loads the new
+// leader's data, reads are sampled: a read that is answered between two
+// HEALTHZ replies that both say "not caught up" was served from a half-loaded
+// dataset. Returns false when the case is over.
+func (p *pair) switchLeader(phase string, out *outcome, st step, budget time.Duration) bool {
+	B, err := startLeader()
+	if err != nil {
+		out.inconclusive = phase + ": " + err.Error()
+		return false
+	}
+	pxB, err := newProxy(B.Addr)
+	if err != nil {
+		B.Stop()
+		out.inconclusive = phase + ": " + err.Error()
+		return false
+	}
+	lcB, err := B.Dial()
+	if err != nil {
+		pxB.Close()
+		B.Stop()
+		out.inconclusive = phase + ": " + err.Error()
+		return false
+	}
+	oldL, oldPx, oldLc := p.L, p.px, p.lc
+	p.olds = append(p.olds, func() {
+		oldLc.Close()
+		oldPx.Close()
+		oldL.Stop()
+		os.RemoveAll(oldL.Dir)
+	})
+	if p.shrinkOld != nil {
+		p.shrinkOld.Close()
+		p.shrinkOld, p.shrinkIno = nil, 0
+	}
+	p.L, p.px, p.lc = B, pxB, lcB
+	if _, err := apply(lcB, st.Cmds); err != nil {
+		out.inconclusive = phase + ": " + err.Error()
+		return false
+	}
+	pxB.SetLink(linkProfile{Chunk: st.Chunk, Gap: time.Duration(st.GapMs) * time.Millisecond})
+	defer pxB.SetLink(linkProfile{})
+	fc, err := p.F.Dial()
+	if err != nil {
+		if !p.followerDied(phase, out) {
+			out.inconclusive = phase + ": " + err.Error()
+		}
+		return false
+	}
+	defer fc.Close()
+	if v, err := fc.Do("FOLLOW", "127.0.0.1", strconv.Itoa(pxB.port)); err != nil || v.IsErr() {
+		if !p.followerDied(phase, out) {
+			out.inconclusive = fmt.Sprintf("%s: FOLLOW: %v %s", phase, err, v.String())
+		}
+		return false
+	}
+	notUp := func(v t38.Value) bool { return v.IsErr() }
+	samples, refused := 0, 0
+	for dl := time.Now().Add(budget); time.Now().Before(dl); {
+		acc := pxB.Accepted()
+		h1, err1 := fc.Do("HEALTHZ")
+		r, err2 := fc.Do("KEYS", "*")
+		h2, err3 := fc.Do("HEALTHZ")
+		if err1 != nil || err2 != nil || err3 != nil {
+			if !p.followerDied(phase, out) {
+				out.inconclusive = phase + ": follower connection lost while sampling reads"
+			}
+			return false
+		}
+		if notUp(h1) && notUp(h2) && pxB.Accepted() == acc {
+			samples++
+			if r.IsErr() {
+				refused++
+			} else {
+				out.claimsCheckd++
+				out.vioKey = findingSwitchServes
+				out.vioWhat = fmt.Sprintf("%s: pointed at another leader with FOLLOW, the follower answered HEALTHZ %q, then KEYS * with %d keys, then HEALTHZ %q: a read served from the half-loaded dataset of the new leader while it says it has not caught up (%d reads were refused before)", phase, h1.Str, len(r.Arr), h2.Str, refused)
+				return false
+			}
+		}
+		if !notUp(h2) {
+			break
+		}
+		time.Sleep(time.Millisecond)
+	}
+	if samples > 0 {
+		out.label("switch:reads-refused-while-loading")
+	}
+	return true
+}
+
 // wipeFollower replaces the follower by one with an empty disk: the process is
 // killed, its log and queue are deleted (the config with the leader's address
 // stays), and it is started again. It re-attaches from position 0.
@@ -381,7 +482,7 @@ func (p *pair) wipeFollower() error {
 	p.F.Kill()
 	os.Remove(filepath.Join(p.fdir, "appendonly.aof"))
 	os.Remove(filepath.Join(p.fdir, "queue.db"))
-	F, err := startFollowerProc(p.fdir)
+	F, err := p.launchFollower()
 	if err != nil {
 		return err
 	}
@@ -429,7 +530,11 @@ func (p *pair) waitShrink(budget time.Duration) error {
 
 // ---- the oracle ----------------------------------------------------------------
 
-const markerKey = "__c06"
+// The marker's collection sorts behind every generated key (U+10FFFF first), so
+// that AOFSHRINK, which writes collections in key order, puts it at the end of
+// the rewritten log: two rewritten logs then do not differ in their first
+// bytes just because the marker changed in between.
+const markerKey = "\U0010FFFFc06"
 
 // syncCheck is one evaluation of the oracle. The leader is quiescent: the
 // caller issues no leader command until syncCheck returns.
@@ -842,6 +947,12 @@ func runCase(cs *caseSpec, ro runOpts) (out *outcome) {
 				continue
 			}
 		}
+		if cs.SyncBeforeShrink && (st.Kind == stShrink || st.Kind == stRewriteShrink) {
+			p.syncCheck(phase+" pre-sync", out, ro.budget, nil)
+			if out.vioKey != "" || out.inconclusive != "" {
+				return
+			}
+		}
 		if cs.SyncBeforeFollow && (st.Kind == stRefollow || st.Kind == stDetachWr || st.Kind == stSplit) {
 			p.syncCheck(phase+" pre-sync", out, ro.budget, nil)
 			if out.vioKey != "" || out.inconclusive != "" {
@@ -849,7 +960,7 @@ func runCase(cs *caseSpec, ro runOpts) (out *outcome) {
 			}
 		}
 		switch st.Kind {
-		case stRestart, stCut, stDown, stRefollow, stDetachWr, stSplit, stCutMD5, stShrinkBacklog:
+		case stRestart, stCut, stDown, stRefollow, stDetachWr, stSplit, stCutMD5, stShrinkBacklog, stRewriteShrink:
 			reconnAfter = p.px.Accepted()
 		}
 		reqsBefore := -1
@@ -907,6 +1018,32 @@ func runCase(cs *caseSpec, ro runOpts) (out *outcome) {
 			p.px.Down(time.Duration(st.Ms) * time.Millisecond)
 		case stSlow:
 			p.px.SetLink(linkProfile{Delay: time.Duration(st.Ms) * time.Millisecond, Chunk: st.Chunk, Gap: time.Duration(st.GapMs) * time.Millisecond})
+		case stRewriteShrink:
+			if _, err := apply(p.lc, st.Cmds); err != nil {
+				out.inconclusive = phase + ": " + err.Error()
+				return
+			}
+			if err := p.shrinkNow(); err != nil {
+				out.inconclusive = phase + ": " + err.Error()
+				return
+			}
+			p.syncCheck(phase+" after the first shrink", out, ro.budget, nil)
+			if out.vioKey != "" || out.inconclusive != "" {
+				return
+			}
+			if _, err := apply(p.lc, st.LCmds); err != nil {
+				out.inconclusive = phase + ": " + err.Error()
+				return
+			}
+			if err := p.shrinkNow(); err != nil {
+				out.inconclusive = phase + ": " + err.Error()
+				return
+			}
+		case stSwitch:
+			if !p.switchLeader(phase, out, st, ro.budget) {
+				return
+			}
+			reconnAfter = 0
 		case stShrinkBacklog:
 			if _, err := apply(p.lc, st.Cmds); err != nil {
 				out.inconclusive = phase + ": " + err.Error()
@@ -923,17 +1060,11 @@ func runCase(cs *caseSpec, ro runOpts) (out *outcome) {
 					break
 				}
 			}
-			if p.shrinkIno == 0 {
-				if f, err := os.Open(p.L.AOFPath()); err == nil {
-					p.shrinkOld = f
-					p.shrinkIno = aofInode(p.L.AOFPath())
-				}
+			if cs.SyncBeforeShrink {
+				// the leader has the AOF request; give it time to open the log
+				time.Sleep(100 * time.Millisecond)
 			}
-			if v, err := p.lc.Do("AOFSHRINK"); err != nil || v.IsErr() {
-				out.inconclusive = fmt.Sprintf("%s: %v %s", phase, err, v.String())
-				return
-			}
-			if err := p.waitShrink(30 * time.Second); err != nil {
+			if err := p.shrinkNow(); err != nil {
 				out.inconclusive = phase + ": " + err.Error()
 				return
 			}
